@@ -94,7 +94,9 @@ def join_rules(ctx, pfx, want_writer_rule=True):
         ctx.ob('%s.JOIN[%s:JoinSet]' % (pfx, base.split('::')[-1]), 'RF-JOIN', ok, b.path, b.loc(sp[0][0]),
                'JoinSet tasks are drained by join_next before Ok is returned' if ok else 'JoinSet tasks are not drained before the result is returned',
                key='RF-JOIN|%s|joinset' % base)
-    ctx.ob('%s.JOIN.count' % pfx, 'FLOOR', n >= 5, 'akd', None, '%d fork sites analysed (expected >= 5)' % n)
+    # the JoinSet of the parallel VRF derivation exists with parallel_vrf only
+    need = 5 if 'parallel_vrf' in prog.features.get('akd', []) else 4
+    ctx.ob('%s.JOIN.count' % pfx, 'FLOOR', n >= need, 'akd', None, '%d fork sites analysed (expected >= %d)' % (n, need))
 
 
 # ---------------------------------------------------------------- RF-ERR
